@@ -420,6 +420,12 @@ func (s *scope) resolve(key instanceKey, descriptor *Descriptor) (any, error) {
 			return instance, nil
 		}
 
+		// The provider drops its singletons when it is closed: an operation that
+		// overlaps the Close reports the disposal, not a missing singleton
+		if atomic.LoadInt32(&s.rootProvider.disposed) != 0 {
+			return nil, ErrProviderDisposed
+		}
+
 		// Singleton should have been created at build time
 		return nil, &ResolutionError{
 			ServiceType: key.Type,
